@@ -45,11 +45,14 @@ for pid in sorted(os.listdir(SRC)):
                  "yes: " + ", ".join(caught) if caught else "NO"))
 mdp = os.path.join(DST, "MATRIX.md")
 md = open(mdp).read()
+prev_rows = [l for l in (md.split("\n## Round 4")[1].splitlines() if "\n## Round 4" in md else []) if l.startswith("| C")]   # rows of earlier batches are kept
 md = md.split("\n## Round 4")[0].rstrip("\n") + "\n"
 md += "\n## Round 4 (one change per property for fourteen properties: ten, then C03 C09 C17 C20; state kept between calls, caches, in-place updates of shared arrays)\n\n"
 md += "Quick tier, machinery as committed after the round (the obligations added because of this round are listed in DESIGN.md section 10).\n\n"
 md += "| change | what it does | checks run against it (quick tier) | reported as VIOLATION |\n|---|---|---|---|\n"
+lines = {l.split("|")[1].strip(): l for l in prev_rows}
 for r in rows:
-    md += "| %s/patch7 | %s | %s | %s |\n" % r
+    lines["%s/patch7" % r[0]] = "| %s/patch7 | %s | %s | %s |" % r
+md += "\n".join(lines[k] for k in sorted(lines)) + "\n"
 open(mdp, "w").write(md)
 print("kept", len(rows), "caught", sum(1 for r in rows if r[3].startswith("yes")))
